@@ -1046,7 +1046,7 @@ def ledger_noise(ledger, a, b, names, s):
 
 def units_for(s, rng=None):
     if R.is_enzyme(s):
-        return ['U', 'mg', 'g', 'uL', 'ng', 'nL', None]
+        return ['U', 'mg', 'g', 'uL', 'ng', 'nL', None, 'kU', 'mU']
     return ['umol', 'mmol', 'mol', 'mg', 'g', 'uL', 'mL', 'cmol', 'nmol', 'dag', 'ng', 'kL', 'nL', None]
 
 
@@ -1169,7 +1169,7 @@ def check_c15(prog, pdesc, rs, r, res, ledger, case, handles):
             plate = is_plate(res[nme])
             solvent_container_only = all(
                 rs[k]['op'] == 'solution' and isinstance(rs[k]['solvent'], str) and rs[k]['solvent'] == nme for k in ks)
-            for unit_arg in rnd.sample(['uL', 'mL', 'mg', 'g', 'umol', 'mol', 'U', 'nL', 'kL', 'ng', 'dag', 'cmol', 'nmol', None, None], 4):
+            for unit_arg in rnd.sample(['uL', 'mL', 'mg', 'g', 'umol', 'mol', 'U', 'nL', 'kL', 'ng', 'dag', 'cmol', 'nmol', None, None, 'kU', 'mU', 'daU'], 4):
                 # unit=None: the documented default, the configured volume display unit
                 unit = unit_arg if unit_arg is not None else cf.volume_display_unit
                 if unit_arg is None:
@@ -1300,24 +1300,27 @@ def check_c17_trash(prog, pdesc, rs, r, res, ledger, case, handles):
         M.bucket('C17/recipe/' + ('container' if not plate else 'plate_part' if sel is not None else 'plate_whole'))
         others = [nme for nme in names if nme != t]
         for s in prog['subs']:
-            removed = amount(ledger[a].get(t), s) - amount(ledger[a + 1].get(t), s)
+            removed0 = amount(ledger[a].get(t), s) - amount(ledger[a + 1].get(t), s)
             if not R.is_enzyme(s):
-                removed = R.canon(s, removed) / 1e-6        # stored amount -> umol under any moles storage unit
-            unit = 'U' if R.is_enzyme(s) else 'umol'
-            tol = 0.5 * 10.0 ** (-cf.precision(unit)) * 1.000001 + abs(removed) * 1e-9 + 1e-6
-            if others:
-                M.count('TRASHLINK')
-                try:
-                    got = r.get_substance_used(s, tf, unit, [handles[others[0]]])
-                except ValueError as e:
-                    got = e
-                if isinstance(got, Exception) or abs(got - removed) > tol:
-                    M.violate(['C17', 'C09'], 'LEDGER', 'C17:discarded_amount_ne_substance_used:' +
-                              ('container' if not plate else 'plate_part' if sel is not None else 'plate_whole'),
-                              {'substance': s.name, 'removed_umol_or_U': removed, 'reported': repr(got)[:100],
-                               'stage': tf, 'program': pdesc})
-                elif removed > 0:
-                    M.note_nontrivial('C17', ('trash', s.name, tf, repr(pdesc)[:1500]))
+                removed0 = R.canon(s, removed0) / 1e-6        # stored amount -> umol under any moles storage unit
+            for unit, scale_ in ((('U', 1.0), ('mU', 1e3), ('kU', 1e-3)) if R.is_enzyme(s) else (('umol', 1.0), ('mmol', 1e-3))):
+                # (the discarded amount is asked for in the plain unit and in prefixed ones: the same amount, rescaled)
+                removed = removed0 * scale_
+                tol = 0.5 * 10.0 ** (-cf.precision(unit)) * 1.000001 + abs(removed) * 1e-9 + 1e-6 * scale_
+                if others:
+                    M.count('TRASHLINK')
+                    try:
+                        got = r.get_substance_used(s, tf, unit, [handles[others[0]]])
+                    except ValueError as e:
+                        got = e
+                    if isinstance(got, Exception) or abs(got - removed) > tol:
+                        M.violate(['C17', 'C09'], 'LEDGER', 'C17:discarded_amount_ne_substance_used:' +
+                                  ('container' if not plate else 'plate_part' if sel is not None else 'plate_whole'),
+                                  {'substance': s.name, 'unit': unit, 'removed_in_that_unit': removed, 'reported': repr(got)[:100],
+                                   'stage': tf, 'program': pdesc})
+                        break
+                    elif removed > 0:
+                        M.note_nontrivial('C17', ('trash', s.name, tf, unit, repr(pdesc)[:1500]))
         # flows 'out' of the target
         for unit in ('uL', 'mg'):
             M.count('TRASHLINK')
